@@ -9,6 +9,7 @@ import json
 import logging
 import os
 import shutil
+import signal
 import tempfile
 import traceback
 import urllib.parse
@@ -16,6 +17,24 @@ import urllib.parse
 from vf.common import CaseTimeout
 
 _counter = [0]
+
+
+@contextlib.contextmanager
+def deadline(seconds):
+    """Wall-clock guard for one in-process run.  Unlike Shard.alarm the timer keeps firing (every 3 s after
+    the first expiry): StreamFlow's own `except BaseException` clean-up may block again after the first
+    CaseTimeout.  A timeout only ever discards the case."""
+
+    def handler(signum, frame):
+        raise CaseTimeout("".join(traceback.format_stack(frame, limit=10)))
+
+    old = signal.signal(signal.SIGALRM, handler)
+    signal.setitimer(signal.ITIMER_REAL, seconds, 3.0)
+    try:
+        yield
+    finally:
+        signal.setitimer(signal.ITIMER_REAL, 0)
+        signal.signal(signal.SIGALRM, old)
 
 
 def fresh_dir(root, tag="c"):
